@@ -37,6 +37,26 @@ def _zip_with_mail():
         zi.external_attr = 0o100755 << 16
         z.writestr(zi, "#!/bin/sh\necho zipped-script\n")
         z.writestr("secret.txt", "zip-member-not-the-outside-one\n")
+        # archives inside the archive, named like things that exist outside the root / in the working directory
+        deep = io.BytesIO()
+        with zipfile.ZipFile(deep, "w") as zd:
+            zd.writestr("y.txt", "deep y\n")
+        inner = io.BytesIO()
+        with zipfile.ZipFile(inner, "w") as zi2:
+            zi2.writestr("x.txt", "inner x\n")
+            zi2.writestr("deep.zip", deep.getvalue())
+        z.writestr("inner.zip", inner.getvalue())
+        z.writestr("secretdir/nested.zip", inner.getvalue())
+    return b.getvalue().decode("latin-1")
+
+
+def _small_zip(text):
+    import io
+    import zipfile
+    b = io.BytesIO()
+    with zipfile.ZipFile(b, "w") as z:
+        z.writestr("x.txt", text)
+        z.writestr("y.txt", text)
     return b.getvalue().decode("latin-1")
 
 
@@ -102,6 +122,9 @@ def outside_variant(v):
         {"path": "rootdir1", "kind": "dir"}, {"path": "rootdir1/c.txt", "data": f"SIBLING-{tag}\n"},
         {"path": "root-private", "kind": "dir"}, {"path": "root-private/secret.txt", "data": f"PRIV-{tag}\n"},
         {"path": "mail.mbox", "data": MBOX.replace("one", tag)},
+        {"path": "inner.zip", "data": _small_zip(f"OUTSIDE-ZIP-{tag}\n")},
+        {"path": "secretdir/nested.zip", "data": _small_zip(f"OUTSIDE-NESTED-{tag}\n")},
+        {"path": "deep.zip", "data": _small_zip(f"OUTSIDE-DEEP-{tag}\n")},
     ] + ([{"path": "etc", "kind": "dir"}, {"path": "etc/passwd", "data": "root:x:0:0\n"}] if v == "b" else [])
 
 
@@ -375,7 +398,9 @@ def run(tier):
         for nm in ["mail.mbox|/MBOX-MESSAGE/1", "md|/MAILDIR-MESSAGE/1", "1/a.txt", "URL:http://x/../y", "script.sh?a b",
                    "arch.zip", "arch.zip/inner.txt", "arch.zip/mail.mbox", "arch.zip/mail.mbox|/MBOX-MESSAGE/1", "arch.zip/md",
                    "arch.zip/md|/MAILDIR-MESSAGE/1", "arch.zip/script.sh", "arch.zip/script.sh?x", "arch.zip/secret.txt",
-                   "arch.zip/secretdir/x.txt", "arch.zip/secret.txt.abstract"]:
+                   "arch.zip/secretdir/x.txt", "arch.zip/secret.txt.abstract", "arch.zip/inner.zip", "arch.zip/inner.zip/x.txt",
+                   "arch.zip/inner.zip/deep.zip/y.txt", "arch.zip/secretdir/nested.zip/x.txt", "arch.zip/secretdir/nested.zip",
+                   "arch.zip/inner.zip/y.txt", "arch.zip/inner.zip/deep.zip"]:
             s = "/" + nm
             data, tls = gen.request_bytes(proto, s)
             requests.append((proto, s, 1, False, data, tls, False))
